@@ -14,6 +14,9 @@ restore_evidence() { rm -rf /verif/evidence; mkdir -p /verif/evidence; cp -a "$E
 for p in "${patches[@]}"; do
   p=$(readlink -f "$p")
   name=$(basename "$p" .patch); id=${name%%-*}
+  # /verif/seeded/<ID>[-n]/patch.diff: the id is the directory name
+  if [[ "$p" == */seeded/*/patch.diff ]]; then name=$(basename "$(dirname "$p")"); id=${name%%-*}; name="seeded-$name"; fi
+  [ -n "${SELFTEST_IDS:-}" ] && id="$SELFTEST_IDS"
   ids="$id"
   # "C05+C08-xyz.patch" style: several owning checks
   if [[ "$id" == *+* ]]; then ids="${id//+/ }"; fi
